@@ -116,9 +116,13 @@ func dumpAnySize(dump string) bool {
 // type keep their key-value content but may adopt the shared seed and internal order
 
 type dnorm struct {
-	s   string
-	i   int
-	bad bool
+	s       string
+	i       int
+	bad     bool
+	count   int // extra-data count of the inlined composite map whose elements come next (-1: none)
+	keySize  int  // size of the key of the single element parsed last
+	keyPlain bool // ... and whether it is a plain value
+	hoisted int // bytes the compact form of the inlined composite maps met so far does not write in place
 }
 
 func (p *dnorm) peek() byte {
@@ -187,15 +191,20 @@ func (p *dnorm) sized() string {
 			p.lit(")")
 			composite = strings.HasPrefix(ty, "T(c")
 		}
+		count := -1
 		if composite && len(f) == 7 {
 			f[3] = "*"
 			t := strings.Split(strings.TrimSuffix(strings.TrimPrefix(ty, "T("), ")"), ",")
 			if len(t) == 3 {
+				if c, err := strconv.Atoi(t[1]); err == nil {
+					count = c
+				}
 				t[2] = "*"
 				ty = "T(" + strings.Join(t, ",") + ")"
 			}
 			hd = "d(" + strings.Join(f, ",")
 		}
+		p.count = count
 		return size + ":" + hd + ")" + ty + p.elements(composite)
 	}
 	p.bad = true
@@ -214,11 +223,17 @@ func (p *dnorm) elements(composite bool) string {
 		p.lit("}[")
 		var es []string
 		allSingle := true
+		count := p.count
+		p.count = -1
+		keyBytes, plainKeys := 0, true
 		for !p.bad && p.peek() != ']' {
 			if p.peek() != 'S' {
 				allSingle = false
 			}
+			p.keySize, p.keyPlain = 0, false
 			es = append(es, p.element())
+			keyBytes += p.keySize
+			plainKeys = plainKeys && p.keyPlain
 			if p.peek() == ' ' {
 				p.i++
 			}
@@ -227,6 +242,22 @@ func (p *dnorm) elements(composite bool) string {
 		if composite && allSingle {
 			hk = "*"
 			sort.Strings(es)
+		}
+		// MapDataSlab.canBeEncodedAsCompactMap: composite type, single elements only, keys comparable and
+		// stored in place (with the harness's values: plain TVs); the digests, the single-element heads and
+		// the keys go to the shared section, the hkeyElements head (8 bytes) becomes a plain array head
+		if composite && allSingle && plainKeys && count == len(es) {
+			n := len(es)
+			hl := 1
+			switch {
+			case n >= 65536:
+				hl = 5
+			case n >= 256:
+				hl = 3
+			case n >= 24:
+				hl = 2
+			}
+			p.hoisted += 8 - hl + keyBytes + n*(8+1)
 		}
 		return hd + "){" + hk + "}[" + strings.Join(es, " ") + "]"
 	case 'L':
@@ -256,6 +287,12 @@ func (p *dnorm) element() string {
 		p.lit(",")
 		v := p.sized()
 		p.lit(")")
+		// (set after the value: the value may hold single elements of its own)
+		p.keySize, p.keyPlain = 0, false
+		if j := strings.IndexByte(k, ':'); j > 0 {
+			p.keySize, _ = strconv.Atoi(k[:j])
+			p.keyPlain = strings.HasPrefix(k[j+1:], "v")
+		}
 		return "S(" + size + "," + k + "," + v + ")"
 	case 'I':
 		p.lit("I(")
@@ -273,10 +310,23 @@ func (p *dnorm) element() string {
 	return ""
 }
 
+// dumpHoisted: the bytes the compact form saves in place for this slab, computed from its dump
+// (ok = the dump parses)
+func dumpHoisted(dump string) (int, bool) {
+	p := &dnorm{s: dump, count: -1}
+	if normalizeDumpWith(p, dump) == "" {
+		return 0, false
+	}
+	return p.hoisted, true
+}
+
 // normalizeDump returns the dump with compact-eligible inlined maps in normal form ("" if the dump
 // cannot be parsed).
 func normalizeDump(dump string) string {
-	p := &dnorm{s: dump}
+	return normalizeDumpWith(&dnorm{s: dump, count: -1}, dump)
+}
+
+func normalizeDumpWith(p *dnorm, dump string) string {
 	var out string
 	switch {
 	case strings.HasPrefix(dump, "D("):
@@ -290,6 +340,12 @@ func normalizeDump(dump string) string {
 			p.lit(")")
 		}
 		out = hd + ")" + ty + p.elements(false)
+	case strings.HasPrefix(dump, "V("):
+		p.lit("V(")
+		id := p.until(",")
+		p.lit(",")
+		out = "V(" + id + "," + p.sized() + ")"
+		p.lit(")")
 	default:
 		return dump
 	}
@@ -401,6 +457,12 @@ func (e *codecEnv) checkpointStorage(rng *rand.Rand, ps *atree.PersistentSlabSto
 		} else {
 			e.oracleSlab(deltas[id])
 		}
+	}
+	if e.encPanic {
+		// EncodeSlab panicked on a slab of this write set (reported above): the commit would run the same
+		// encoder in a worker goroutine and take the process down with the report
+		e.encPanic = false
+		return
 	}
 	if err := ps.FastCommit(1 + rng.Intn(3)); err != nil {
 		e.violation("C03", "fault-free commit failed: "+err.Error())
@@ -1011,7 +1073,17 @@ var reInlinedCompositeMap = regexp.MustCompile(`,1,0,0\)T\(c\d+,(\d+),\d+\)H\(\d
 // count differs from its number of elements (MapDataSlab.canBeEncodedAsCompactMap sizes its key
 // and value slices by that count); `huge` = the count is so large that calling EncodeSlab would
 // try to allocate gigabytes.
+var reCompositeCount = regexp.MustCompile(`T\(c\d+,(\d+),`)
+
 func compactCountMismatch(dump string) (mismatch, huge bool) {
+	// any composite-typed map with an enormous extra-data count: never hand it to EncodeSlab, whatever
+	// its elements look like (a changed encoder may size a slice by the count on a path the current
+	// one leaves early; the process would be killed for its memory use, taking the report with it)
+	for _, m := range reCompositeCount.FindAllStringSubmatch(dump, -1) {
+		if c, err := strconv.ParseUint(m[1], 10, 64); err != nil || c > 1<<22 {
+			huge = true
+		}
+	}
 	for _, m := range reInlinedCompositeMap.FindAllStringSubmatch(dump, -1) {
 		n := 0
 		if m[2] != "" {
@@ -1048,6 +1120,16 @@ func (e *codecEnv) reencodeAccepted(id atree.SlabID, data []byte, o decOutcome) 
 		return
 	}
 	e.violation("C19", fmt.Sprintf("EncodeSlab panicked (%s) on the slab decoded from %s", pan, hex.EncodeToString(data)))
+}
+
+// noteObservation keeps the first instance of an observation among the samples.
+func (e *codecEnv) noteObservation(tag, what string) {
+	for _, s := range e.st.Samples {
+		if strings.HasPrefix(s, "OBSERVATION "+tag+":") {
+			return
+		}
+	}
+	e.st.Samples = append(e.st.Samples, "OBSERVATION "+tag+": "+what)
 }
 
 // noteFinding keeps the first reproducer of an observation among the samples (re-encoding an accepted
